@@ -2,6 +2,7 @@ package parser
 
 import (
 	"fmt"
+	"strconv"
 	"strings"
 	"unicode"
 )
@@ -465,6 +466,40 @@ func (l *ExpandedLexer) readString() Token {
 				builder.WriteByte('\'')
 			case '\\':
 				builder.WriteByte('\\')
+			case '0':
+				builder.WriteByte(0)
+			case 'a':
+				builder.WriteByte('\a')
+			case 'b':
+				builder.WriteByte('\b')
+			case 'f':
+				builder.WriteByte('\f')
+			case 'v':
+				builder.WriteByte('\v')
+			case 'x', 'u':
+				// \xHH and \uHHHH, as in the compact lexer
+				n := 2
+				if l.ch == 'u' {
+					n = 4
+				}
+				end := l.readPosition + n
+				var val uint64
+				var err error = strconv.ErrSyntax
+				if end <= len(l.input) {
+					val, err = strconv.ParseUint(l.input[l.readPosition:end], 16, 32)
+				}
+				if err != nil {
+					builder.WriteByte(l.ch)
+					break
+				}
+				if n == 2 {
+					builder.WriteByte(byte(val))
+				} else {
+					builder.WriteRune(rune(val))
+				}
+				for i := 0; i < n; i++ {
+					l.readChar()
+				}
 			default:
 				builder.WriteByte(l.ch)
 			}
